@@ -692,6 +692,148 @@ def c18_lazy(ctx):
 
 
 # ---------------------------------------------------------------------------------------------
+# G4b  lazily evaluated data with a cache (on disk / in memory): pieces iterated, then merged
+# ---------------------------------------------------------------------------------------------
+# The statement: "lazily evaluated data yield the same content as eager data" and "merging the pieces reproduces the data".  A cache
+# (data option cached_lazy_call -> LazyCall.set_cached_file(dir, sample name)) is an optimisation: it must never change WHAT a lazy
+# object yields.  The likelihood iterates `data` alone, later data_merge(data, bg) at the same batch size, so a merged object is
+# iterated while the cache files of its pieces already exist.  Everything is element-wise float64 arithmetic (x*2, x+y) which numpy
+# and TensorFlow round identically, so the comparison is exact.
+
+_LAZY_PIECES = (("data", 10, 1), ("bg", 7, 3), ("phsp", 3, 5))  # (sample name as set by config_loader.data.set_lazy_call, events, value tag)
+
+
+@group(["C18"], "iface.C18/lazy_cached_merge",
+       ["data:LazyCall.merge", "data:LazyCall.set_cached_file", "data:LazyCall.as_dataset", "data:LazyCall.__iter__", "data:LazyCall.copy", "data:data_merge",
+        "data:data_split"], env="tf", kind="B",
+       bound="LazyCall over a HeavyCall with set_cached_file(dir, name): cache in a fresh directory on disk and in memory (cached_file ''); pieces named data / bg / "
+             "phsp with 10 / 7 / 3 events; every ordered selection of 2 and of 3 distinct pieces; merged through data_merge and through LazyCall.merge; with and "
+             "without an extra weight entry; pieces iterated completely beforehand: none / the first / all, at batch 4; merged object iterated at batch 4 (same) "
+             "and at batch 3 and 10^6 (different), twice (second pass served by the cache); pieces iterated again afterwards.  quick tier: batches 4 and 3; all 6 "
+             "ordered pairs, of the triples only (data,bg,phsp) and its reverse; LazyCall.merge only with the weight entry; in-memory cache only for pairs with all "
+             "pieces iterated before and the weight entry (thorough: the full product on disk; in memory data_merge with first / all pieces iterated before)")
+def c18_lazy_cached_merge(ctx):
+    D = ctx.mod("data")
+    acc = Acc(ctx)
+    cl = {
+        "cached_merge/content_equals_eager": "with a cache configured and pieces already iterated, data_merge(*data_split(merged, b)) of the merged lazy object equals, "
+                                             "leaf by leaf, the eager merge of the eagerly evaluated pieces (every event of every piece, in order, computed leaves "
+                                             "and extra entries of the same length) at the same and at another batch size, on the first and on the second pass, and "
+                                             "merged.eval() equals it too",
+        "cached_merge/pieces_unchanged": "iterating the merged object does not change what its pieces yield: every piece iterated afterwards (same batch) still equals "
+                                         "its own eager content",
+        "cached_merge/cache_name_distinct": "objects with different content never share a cache file: cached_file + name of the merged object differs from that of "
+                                            "each of its pieces, the merged object keeps the cache directory and prefetch option of the first piece, and copy() "
+                                            "keeps directory and name (same content)",
+    }
+    for k, c in cl.items():
+        acc.declare(k, c)
+
+    def f_heavy(d):
+        return {"y": d["a"] * 2.0, "z": {"s": d["b"][:, 0] + d["a"]}}
+
+    def spec_piece(name, with_extra):
+        _, n, tag = [p for p in _LAZY_PIECES if p[0] == name][0]
+        x = {"a": leaf_array(n, "float64", (), tag), "b": leaf_array(n, "float64", (4,), tag + 1)}
+        out = {"y": x["a"] * 2.0, "z": {"s": x["b"][:, 0] + x["a"]}}
+        extra = {"weight": leaf_array(n, "float64", (), tag + 2) * (-0.5 if name == "bg" else 1.0)} if with_extra else {}
+        out.update(extra)
+        return x, extra, out
+
+    def iterate(lz, b):
+        return _try(lambda: D.data_to_numpy(D.data_merge(*list(D.data_split(lz, b)))))
+
+    names = [p[0] for p in _LAZY_PIECES]
+    orders = list(itertools.permutations(names, 2)) + list(itertools.permutations(names, 3))
+    b0 = 4
+    tmp = tempfile.mkdtemp(prefix="vt-c18-lazy-")
+    k_dir = 0
+    try:
+        with _quiet():
+            cases = []
+            for mode in ("disk", "memory"):
+                for order in orders:
+                    for api, with_extra in (("data_merge", True), ("data_merge", False), ("LazyCall.merge", True), ("LazyCall.merge", False)):
+                        for pre in ("none", "first", "all"):
+                            for b in (b0, 3, 10**6):
+                                if mode == "memory" and (api == "LazyCall.merge" or pre == "none"):
+                                    continue  # the in-memory cache is per object: a thinner sweep is enough
+                                if ctx.tier == "quick" and (b == 10**6 or (api, with_extra) == ("LazyCall.merge", False)
+                                                            or (len(order) == 3 and order not in (tuple(names), tuple(names[::-1])))
+                                                            or (mode == "memory" and (len(order) == 3 or pre != "all" or not with_extra))):
+                                    continue
+                                cases.append((mode, order, api, with_extra, pre, b))
+            for mode, order, api, with_extra, pre, b in cases:
+                k_dir += 1
+                cdir = "" if mode == "memory" else os.path.join(tmp, "c%d" % k_dir) + os.sep  # fresh directory: no file of an earlier case
+                w = {"cache": mode, "pieces": list(order), "sizes": [dict((p[0], p[1]) for p in _LAZY_PIECES)[o] for o in order], "merge_api": api,
+                     "extra": ["weight"] if with_extra else [], "iterated_before": pre, "batch_before": b0, "batch": b}
+                ctx.count(key=(mode, order, api, with_extra, pre, b), sample=w)
+                pieces, wants = [], []
+                f = D.HeavyCall(f_heavy)
+                for nm_ in order:
+                    x, extra, out = spec_piece(nm_, with_extra)
+                    lz = D.LazyCall(f, x)
+                    for k, v in extra.items():
+                        lz[k] = v
+                    lz.set_cached_file(cdir, nm_)
+                    pieces.append(lz)
+                    wants.append(out)
+                want = _concat_structs(wants)
+                msg = ""
+                for i, (lz, wp) in enumerate(zip(pieces, wants)):
+                    if pre == "all" or (pre == "first" and i == 0):
+                        got, err = iterate(lz, b0)
+                        msg = msg or err or struct_equal(got, wp, "piece %s before the merge" % order[i])
+                acc.add("cached_merge/pieces_unchanged", not msg, dict(w, mismatch=msg))
+                merged, err = _try(lambda: D.data_merge(*pieces) if api == "data_merge" else pieces[0].merge(*pieces[1:]))
+                if err:
+                    acc.add("cached_merge/content_equals_eager", False, dict(w, mismatch="merge raised " + err))
+                    continue
+                # cache identity
+                ident = lambda o: (o.cached_file, o.name)  # noqa: E731
+                msg = ""
+                if merged.cached_file != pieces[0].cached_file or merged.prefetch != pieces[0].prefetch:
+                    msg = "cache directory / prefetch of the merged object (%r, %r) differ from the first piece (%r, %r)" % (
+                        merged.cached_file, merged.prefetch, pieces[0].cached_file, pieces[0].prefetch)
+                for i, lz in enumerate(pieces):
+                    if not msg and ident(merged) == ident(lz):
+                        msg = "merged object has the cache name %r of its piece %d (%s): both use the file %r" % (
+                            merged.name, i, order[i], (merged.cached_file or "") + merged.name + "_<batch>")
+                cp = pieces[0].copy()
+                if not msg and ident(cp) != ident(pieces[0]):
+                    msg = "copy() has cache identity %r, original %r" % (ident(cp), ident(pieces[0]))
+                acc.add("cached_merge/cache_name_distinct", not msg, dict(w, mismatch=msg))
+                # content, first and second pass, then eval
+                msg = ""
+                for pas in ("first pass", "second pass"):
+                    got, err = iterate(merged, b)
+                    msg = msg or err or struct_equal(got, want, pas)
+                got, err = _try(lambda: D.data_to_numpy(merged.eval()))
+                msg = msg or err or struct_equal(got, want, "eval()")
+                acc.add("cached_merge/content_equals_eager", not msg, dict(w, mismatch=msg))
+                # the pieces afterwards
+                msg = ""
+                for i, (lz, wp) in enumerate(zip(pieces, wants)):
+                    got, err = iterate(lz, b if b != 10**6 else b0)
+                    msg = msg or err or struct_equal(got, wp, "piece %s after the merged object was iterated" % order[i])
+                acc.add("cached_merge/pieces_unchanged", not msg, dict(w, mismatch=msg))
+    finally:
+        shutil.rmtree(tmp, ignore_errors=True)
+    acc.flush()
+
+
+def _concat_structs(structs):
+    """own row-wise concatenation of equally shaped structures (spec side)"""
+    a = structs[0]
+    if isinstance(a, dict):
+        return {k: _concat_structs([s[k] for s in structs]) for k in a}
+    if isinstance(a, (list, tuple)):
+        return type(a)(_concat_structs([s[i] for s in structs]) for i in range(len(a)))
+    return np.concatenate([np.asarray(s) for s in structs], axis=0)
+
+
+# ---------------------------------------------------------------------------------------------
 # G5  files
 # ---------------------------------------------------------------------------------------------
 
@@ -872,6 +1014,164 @@ def c18_files(ctx):
     finally:
         shutil.rmtree(tmp, ignore_errors=True)
     acc.flush()
+
+
+# ---------------------------------------------------------------------------------------------
+# G5b  CalAngleData.savetxt with charge-conjugated events (cp_trans / save_charge)
+# ---------------------------------------------------------------------------------------------
+# The statement: "Writing momenta ... to file and reading them back reproduces the same arrays with the same particle assignment".
+# With the data option cp_trans (default true) the loader stores, for an event with charge -1, the parity-transformed momentum
+# (E, -px, -py, -pz) (tf_pwa.angle.LorentzVector.neg: "the negative vector" keeps the energy).  savetxt(cp_trans=True) is the inverse
+# of that step: it must write the momenta that were read, so that file -> data -> file is the identity.  A sign flip and a
+# multiplication by +-1.0 are exact in IEEE arithmetic and '%.18e' is a faithful representation: the comparison is exact.
+
+
+@group(["C18"], "iface.C18/savetxt_cp_trans",
+       ["cal_angle:CalAngleData.savetxt", "config_loader.data:SimpleData.load_data", "config_loader.data:MultiData.get_data", "amp.preprocess:BasePreProcessor.__call__"],
+       env="tf", kind="B",
+       bound="(0;0,0,0) three-body model, dat_order = 3 of the 6 permutations; n in {2, 7} phase-space events; per-event charges: all +1, all -1, mixed (both "
+             "signs); savetxt cp_trans in {False, True} x save_charge in {False, True}; data objects built directly (CalAngleData of given momenta and charges) and "
+             "loaded from a momentum file + data_charge file through ConfigLoader with the data option cp_trans in {default (true), false}")
+def c18_savetxt_cp_trans(ctx):
+    D = ctx.mod("data")
+    CA = ctx.mod("cal_angle")
+    ConfigLoader = ctx.mod("config_loader").ConfigLoader
+    acc = Acc(ctx)
+    cl = {
+        "savetxt_cp/written_rows": "CalAngleData.savetxt(file, order, cp_trans=t, save_charge=s) writes, in row (event r, particle order[j]), the stored momentum "
+                                   "(E, px, py, pz) of that particle if t is false and (E, c_r*px, c_r*py, c_r*pz) with c_r = charge_conjugation[r] in {+1,-1} if t "
+                                   "is true: the energy is written unchanged for every event, only the spatial part of charge -1 events changes sign",
+        "savetxt_cp/charge_file": "save_charge=True writes exactly one further file next to the momentum file, holding charge_conjugation row by row; "
+                                  "save_charge=False writes no further file",
+        "savetxt_cp/file_roundtrip": "a momentum file and a data_charge file loaded through ConfigLoader (data option cp_trans = c) and written back with "
+                                     "savetxt(order=dat_order, cp_trans=c, save_charge=True) reproduce the momentum file row by row (E, px, py, pz of every particle "
+                                     "of every event, whatever its charge) and the charge file; loading the written files again gives the same data in every leaf",
+    }
+    for k, c in cl.items():
+        acc.declare(k, c)
+    sname = "s000"
+    names = M.final_names(sname)
+    perms = list(itertools.permutations(names))
+    perms = [perms[0], perms[3], perms[5]]
+    tmp = tempfile.mkdtemp(prefix="vt-c18-cp-")
+
+    def charges(kind, n):
+        return {"plus": np.ones(n), "minus": -np.ones(n), "mixed": M.mixed_charges(n, ctx.seed + n)}[kind]
+
+    def rows_of(p4, perm):
+        return np.stack([np.asarray(p4[nm_]) for nm_ in perm], axis=1).reshape(-1, 4)
+
+    def others(dirname, known):
+        return sorted(f for f in os.listdir(dirname) if f not in known)
+
+    try:
+        with _quiet():
+            k_dir = 0
+            for perm in perms:
+                for n in (2, 7):
+                    ps = [np.array(p) for p in M.phsp(ctx, sname, n, ctx.seed + 185 + n)]
+                    p4 = M.p4dict(sname, ps)
+                    for ckind in ("plus", "minus", "mixed"):
+                        c = charges(ckind, n)
+                        # (a) directly built data object: stored momenta and charges are given
+                        cad = CA.CalAngleData({"particle": {nm_: {"p": p4[nm_], "m": M.minkowski_m(p4[nm_])} for nm_ in names}, "charge_conjugation": c})
+                        for t in (False, True):
+                            for s in (False, True):
+                                k_dir += 1
+                                d = os.path.join(tmp, "a%d" % k_dir)
+                                os.mkdir(d)
+                                fn = os.path.join(d, "out.dat")
+                                w = {"structure": sname, "order": list(perm), "n": n, "charges": c.tolist(), "cp_trans": t, "save_charge": s,
+                                     "p4": {k: v.tolist() for k, v in p4.items()} if n <= 2 else "M.phsp(seed %d)" % (ctx.seed + 185 + n)}
+                                ctx.count(key=("direct", perm, n, ckind, t, s), sample=dict(w, p4="..."))
+                                _, err = _try(lambda: cad.savetxt(fn, order=list(perm), cp_trans=t, save_charge=s))
+                                msg = err or ""
+                                if not msg:
+                                    raw = np.loadtxt(fn).reshape(-1, 4)
+                                    sign = np.repeat(c, len(perm))[:, None] if t else 1.0
+                                    stored = rows_of(p4, perm)
+                                    want = np.concatenate([stored[:, :1], stored[:, 1:] * sign], axis=1)
+                                    if raw.shape != want.shape:
+                                        msg = "%s rows written, expected %s" % (raw.shape, want.shape)
+                                    elif not np.array_equal(raw[:, 0], want[:, 0]):
+                                        r = int(np.argwhere(raw[:, 0] != want[:, 0])[0][0])
+                                        msg = "energy of event %d (charge %+d) particle %s written as %r, stored %r" % (
+                                            r // len(perm), c[r // len(perm)], perm[r % len(perm)], float(raw[r, 0]), float(want[r, 0]))
+                                    elif not np.array_equal(raw, want):
+                                        r = int(np.argwhere((raw != want).any(axis=1))[0][0])
+                                        msg = "spatial momentum of event %d (charge %+d) particle %s written as %s, expected %s" % (
+                                            r // len(perm), c[r // len(perm)], perm[r % len(perm)], raw[r, 1:].tolist(), want[r, 1:].tolist())
+                                acc.add("savetxt_cp/written_rows", not msg, dict(w, mismatch=msg))
+                                if not err:
+                                    extra_files = others(d, {"out.dat"})
+                                    if s:
+                                        msg = "" if len(extra_files) == 1 else "files next to out.dat: %s" % extra_files
+                                        if not msg:
+                                            cc = np.loadtxt(os.path.join(d, extra_files[0])).reshape(-1)
+                                            msg = "" if cc.shape == c.shape and np.array_equal(cc, c) else "charge file %s holds %s" % (extra_files[0], cc.tolist())
+                                    else:
+                                        msg = "" if not extra_files else "save_charge=False wrote %s" % extra_files
+                                    acc.add("savetxt_cp/charge_file", not msg, dict(w, mismatch=msg))
+                        # (b) file -> ConfigLoader -> file
+                        for opt in (None, False):
+                            k_dir += 1
+                            d = os.path.join(tmp, "b%d" % k_dir)
+                            os.mkdir(d)
+                            f_in, f_c = os.path.join(d, "in.dat"), os.path.join(d, "in_charge.dat")
+                            rows = rows_of(p4, perm)
+                            np.savetxt(f_in, rows)
+                            np.savetxt(f_c, c)
+                            dsec = {"dat_order": list(perm), "data": [f_in], "data_charge": [f_c]}
+                            if opt is not None:
+                                dsec["cp_trans"] = opt
+                            t = True if opt is None else opt
+                            cfg = M.build_config(sname, chains=["bc", "cd"], data=dsec)
+                            w = {"structure": sname, "dat_order": list(perm), "n": n, "charges": c.tolist(), "data option cp_trans": "default" if opt is None else opt,
+                                 "savetxt cp_trans": t, "config_dict": cfg, "rows": rows.tolist() if n <= 2 else "M.phsp(seed %d)" % (ctx.seed + 185 + n)}
+                            ctx.count(key=("file", perm, n, ckind, opt), sample={k: v for k, v in w.items() if k not in ("config_dict", "rows")})
+                            f_out = os.path.join(d, "out.dat")
+
+                            def load(cfg_):
+                                got = ConfigLoader(copy.deepcopy(cfg_)).get_data("data")
+                                return got[0] if isinstance(got, (list, tuple)) else got
+
+                            data, err = _try(lambda: load(cfg))
+                            _, err1 = (None, err) if err else _try(lambda: data.savetxt(f_out, order=list(perm), cp_trans=t, save_charge=True))
+                            msg = err or err1 or ""
+                            if not msg:
+                                raw = np.loadtxt(f_out).reshape(-1, 4)
+                                if raw.shape != rows.shape:
+                                    msg = "%s rows written, %s read" % (raw.shape, rows.shape)
+                                elif not np.array_equal(raw, rows):
+                                    r = int(np.argwhere((raw != rows).any(axis=1))[0][0])
+                                    msg = "event %d (charge %+d) particle %s: written (E,px,py,pz) %s, the loaded file had %s" % (
+                                        r // len(perm), c[r // len(perm)], perm[r % len(perm)], raw[r].tolist(), rows[r].tolist())
+                            if not msg:
+                                extra_files = others(d, {"in.dat", "in_charge.dat", "out.dat"})
+                                if len(extra_files) != 1:
+                                    msg = "files written next to out.dat: %s" % extra_files
+                                else:
+                                    cc = np.loadtxt(os.path.join(d, extra_files[0])).reshape(-1)
+                                    msg = "" if cc.shape == c.shape and np.array_equal(cc, c) else "charge file %s holds %s" % (extra_files[0], cc.tolist())
+                            if not msg:
+                                cfg2 = copy.deepcopy(cfg)
+                                cfg2["data"]["data"] = [f_out]
+                                cfg2["data"]["data_charge"] = [os.path.join(d, extra_files[0])]
+                                data2, err = _try(lambda: load(cfg2))
+                                msg = err or struct_equal(D.data_to_numpy(_plain(data2)), D.data_to_numpy(_plain(data)), "reloaded")
+                            acc.add("savetxt_cp/file_roundtrip", not msg, dict(w, mismatch=msg))
+    finally:
+        shutil.rmtree(tmp, ignore_errors=True)
+    acc.flush()
+
+
+def _plain(data):
+    """the data object as plain nested dicts with string keys (so that two loads, whose particle objects differ, can be compared)"""
+    if isinstance(data, dict):
+        return {str(k): _plain(v) for k, v in data.items()}
+    if isinstance(data, (list, tuple)):
+        return [_plain(v) for v in data]
+    return data
 
 
 # ---------------------------------------------------------------------------------------------
